@@ -8,7 +8,7 @@ import os
 D = "/verif/coq/Properties"
 IMPORTS = ("From CB Require Import Spec Unstable.\nFrom Coq Require Import Permutation.\n"
            "From CBP Require Import Step RefDefs C02Lemmas Arith AbsLemmas AllOps FaultDefs FaultPrims FaultDropA FaultDropB FaultUser\n"
-           "     Iters DrainP ExtendIo CmpHash Ctors PhysMoves UnstableEq Access Views RefTruncate FillExtend FaultFrame SpecCorollaries%s.\n")
+           "     Iters DrainP ExtendIo CmpHash Ctors PhysMoves MoreOps UnstableEq Access Views RefTruncate FillExtend FaultFrame SpecCorollaries%s.\n")
 
 P = {}
 
@@ -127,6 +127,7 @@ P["C05"] = ("""C05 — a panicking element destructor never causes a second drop
     ("truncate_back", "k", "OTruncateBack k", "truncate_back_fault"),
     ("truncate_front", "k", "OTruncateFront k", "truncate_front_fault"),
     ("clear", "", "OClear", "clear_fault"), ("drop_buffer", "", "ONew", "new_fault"),
+    ("boxed", "", "OBoxed", "boxed_fault"), ("default", "", "ODefault", "default_fault"),
     ("into_iter", "script", "OIntoIter script", "into_iter_fault"),
     ("fill", "v", "OFill v", "fill_fault"), ("fill_with", "", "OFillWith", "fill_with_fault"),
     ("fill_spare", "v", "OFillSpare v", "fill_spare_fault"),
@@ -217,10 +218,15 @@ P["C08"] = ("""C08 — borrowing and owning iterators obey the double-ended exac
    results of [spec_script]: the selected window of [abs s] consumed from both
    ends, each element exactly once, None forever after, len = what is left, a
    clone continuing independently. Ranges go through translate_range_bounds,
-   advance_front_by, advance_back_by and slice_take without a bounds panic.""", "", ops("C08", [
+   advance_front_by, advance_back_by and slice_take without a bounds panic.
+   (&buf).into_iter() is buf.iter(); Iter::default() and IterMut::default()
+   are iterators over the empty window (None forever, len 0, nothing written).""", "", ops("C08", [
     ("iter", "script", "OIter script"), ("range", "sb eb script", "ORange sb eb script"),
     ("iter_mut", "script", "OIterMut script"), ("range_mut", "sb eb script", "ORangeMut sb eb script"),
-    ("into_iter", "script", "OIntoIter script")]) + [
+    ("into_iter", "script", "OIntoIter script"),
+    ("iter_default", "script", "OIterDefault script"),
+    ("iter_mut_default", "script", "OIterMutDefault script"),
+    ("ref_into_iter", "script", "ORefIntoIter script")]) + [
     ("C08_protocol", """forall l lo hi sc rs l' lo' hi',
   (lo <= hi <= length l)%nat -> plain_script sc = true ->
   spec_script l lo hi sc = (rs, l', (lo', hi')) ->
@@ -244,6 +250,7 @@ P["C09"] = ("""C09 — drain removes exactly the requested range and keeps the r
    firstn a ++ skipn b, and destroys exactly the un-yielded drained elements,
    once each, in order.""", "", [
     ("C09_drain_drop", "forall sb eb script, refines_op (ODrain sb eb script false)", "drain_drop_op"),
+    ("C09_drain_debug", "forall sb eb pre, refines_op (ODrainDebug sb eb pre)", "drain_debug_op"),
     ("C09_drain_protocol", """forall s w sb eb sc v s' w',
   WF s -> fault w = None -> bound_ok sb -> bound_ok eb ->
   exec (ODrain sb eb sc false) s w = (Ok v, s', w') ->
@@ -282,17 +289,22 @@ P["C11"] = ("""C11 — operations panic exactly when documented and are otherwis
   match o with
   | OSwap i j => (i <? zlen l) && (j <? zlen l) = false
   | OIndex i | OIndexMutSet i _ => (i <? zlen l) = false
-  | ODrain sb eb _ _ | ORange sb eb _ | ORangeMut sb eb _ => spec_bounds (zlen l) sb eb = None
+  | ODrain sb eb _ _ | ORange sb eb _ | ORangeMut sb eb _
+  | OIterDebug sb eb _ | OIterMutDebug sb eb _ | ODrainDebug sb eb _ =>
+    spec_bounds (zlen l) sb eb = None
   | _ => False
   end""", "spec_panics_iff"),
 ])
 
 P["C12"] = ("""C12 — constructors and conversions give the specified contents,
-   independently owned: new is empty; from an array / iterator keeps the last N
+   independently owned: new, default and boxed are empty (the harness moves the
+   result into place and destroys the old buffer; boxed allocates once, first);
+   from an array / iterator keeps the last N
    elements (same identities) and destroys the rest once; clone, clone_from and
    to_vec make element-wise clones with fresh identities, source unchanged;
    into_iter yields the original elements in order.""", "", ops("C12", [
-    ("new", "", "ONew"), ("from_array", "xs", "OFromArray xs"), ("from_iter", "xs", "OFromIter xs"),
+    ("new", "", "ONew"), ("default", "", "ODefault"), ("boxed", "", "OBoxed"),
+    ("from_array", "xs", "OFromArray xs"), ("from_iter", "xs", "OFromIter xs"),
     ("clone_then_drop", "", "OCloneDropClone"), ("clone_then_keep", "", "OCloneKeepClone"),
     ("clone_from", "other", "OCloneFrom other"), ("to_vec", "", "OToVec"), ("into_iter", "script", "OIntoIter script")]))
 
@@ -300,10 +312,17 @@ P["C13"] = ("""C13 — equality, ordering, hashing and Debug depend only on the 
    contents: the results and the element-level comparisons performed are those
    of [spec_eq] / [spec_cmp] on [abs a], [abs b] (any capacities, any layouts:
    the three-way segment alignment never goes out of bounds), hashing feeds the
-   length then the elements of [abs a], Debug formats the elements of [abs a].""", "", ops("C13", [
+   length then the elements of [abs a], Debug formats the elements of [abs a].
+   Debug of an Iter / IterMut / Drain / IntoIter, after any script on it,
+   formats exactly the elements it would still yield, front to back, and
+   consumes nothing (the Drain / IntoIter then destroys them as usual).""", "", ops("C13", [
     ("eq", "other", "OEq other"), ("eq_slice", "form xs", "OEqSlice form xs"),
     ("partial_cmp", "other", "OPartialCmp other"), ("cmp", "other", "OCmp other"),
-    ("hash", "", "OHash"), ("debug", "", "ODebug")]))
+    ("hash", "", "OHash"), ("debug", "", "ODebug"),
+    ("iter_debug", "sb eb pre", "OIterDebug sb eb pre"),
+    ("iter_mut_debug", "sb eb pre", "OIterMutDebug sb eb pre"),
+    ("drain_debug", "sb eb pre", "ODrainDebug sb eb pre"),
+    ("into_iter_debug", "pre", "OIntoIterDebug pre")]))
 
 P["C14"] = ("""C14 — byte-stream I/O: write accepts everything and keeps the newest N
    bytes, read copies min(len) bytes from the front and removes them, fill_buf
@@ -324,16 +343,24 @@ P["C16"] = ("""C16 — the embedded-io and embedded-io-async impls behave exactl
     ("write", "fam src", "OWrite fam src"), ("flush", "fam", "OFlush fam"), ("read", "fam dst", "ORead fam dst"),
     ("fill_buf", "fam", "OFillBuf fam"), ("consume", "fam k", "OConsume fam k")]))
 
-P["C17"] = ("""C17 — no operation allocates (apart from to_vec; boxed() is not in the
-   operation language of the model): the capacity, hence the inline storage,
-   never changes, and the only allocation event any returning call emits is the
-   single one of to_vec on a non-empty buffer. What decides the property on the
+P["C17"] = ("""C17 — no operation allocates, apart from to_vec and boxed: the capacity,
+   hence the inline storage, never changes, and the only allocation events any
+   returning call emits are the single one of to_vec on a non-empty buffer and
+   the single one of boxed() (its Box). What decides the property on the
    real code is the allocation-counting correspondence and the no_std / alloc
    builds (see evidence); these theorems fix what the model predicts.""", "", [
     ("C17_no_alloc", """forall o s w v s' w',
   WF s -> fault w = None -> op_ok s o ->
   exec o s w = (Ok v, s', w') ->
-  exists evs, log w' = log w ++ evs /\\ (o <> OToVec -> ~ In EvAlloc evs) /\\ cap s' = cap s""", "exec_allocs"),
+  exists evs, log w' = log w ++ evs /\\
+    (o <> OToVec -> o <> OBoxed -> ~ In EvAlloc evs) /\\ cap s' = cap s""", "exec_allocs"),
+    ("C17_alloc_only", """forall N l o nid r,
+  spec_step N l o nid = SRet r -> In EvAlloc (sr_evs r) -> o = OToVec \\/ o = OBoxed""", "spec_alloc_only_to_vec"),
+    ("C17_boxed_allocs_once", """forall s w v s' w',
+  WF s -> fault w = None ->
+  exec OBoxed s w = (Ok v, s', w') ->
+  exists evs, log w' = log w ++ evs /\\
+    evs = EvAlloc :: drops (abs s) /\\ count_occ event_eq_dec evs EvAlloc = 1%nat""", "exec_boxed_allocs"),
     ("C17_to_vec_allocs_once", """forall s w v s' w',
   WF s -> fault w = None ->
   exec OToVec s w = (Ok v, s', w') ->
